@@ -447,9 +447,13 @@ impl VersionSet {
         // reuse the existing manifest file
         drop(manifest_reader);
         if self.maybe_reuse_manifest(&manifest_file_path) {
+            #[cfg(raindb_verif)]
+            self.verif_recovered_event(manifest_records_read, true);
             return Ok(true);
         }
 
+        #[cfg(raindb_verif)]
+        self.verif_recovered_event(manifest_records_read, false);
         Ok(false)
     }
 
@@ -487,6 +491,8 @@ impl VersionSet {
                 version_set.append_new_version(new_version);
                 version_set.curr_wal_number = change_manifest.wal_file_number.unwrap();
                 version_set.prev_wal_number = change_manifest.prev_wal_file_number;
+                #[cfg(raindb_verif)]
+                version_set.verif_edit_event(change_manifest, created_new_manifest_file, true);
             }
             Err(error) => {
                 log::error!(
@@ -494,6 +500,8 @@ impl VersionSet {
                     side effects. Original error: {}.",
                     &error
                 );
+                #[cfg(raindb_verif)]
+                version_set.verif_edit_event(change_manifest, created_new_manifest_file, false);
 
                 if created_new_manifest_file {
                     let manifest_path = version_set
@@ -788,6 +796,140 @@ impl VersionSet {
     }
 }
 
+#[cfg(raindb_verif)]
+impl VersionSet {
+    /// Verification accessor: number of versions linked in the version set.
+    pub(crate) fn verif_num_versions(&self) -> usize {
+        self.versions.len()
+    }
+
+    /// Verification accessor: the most recently handed out file number.
+    pub(crate) fn verif_file_counter(&self) -> u64 {
+        self.curr_file_number
+    }
+
+    /// Verification accessor: the database options.
+    pub(crate) fn verif_options(&self) -> &DbOptions {
+        &self.options
+    }
+
+    /// Verification hook: report the state recovered from the manifest.
+    fn verif_recovered_event(&self, records_read: usize, reused: bool) {
+        use crate::verif::{self, Val};
+        verif::event(self.options.db_path(), "RecoverManifest", |_| {
+            vec![
+                ("records", Val::U(records_read as u64)),
+                ("reused", Val::B(reused)),
+                ("man", Val::U(self.manifest_file_number)),
+                ("next", Val::U(self.curr_file_number)),
+                ("last", Val::U(self.prev_sequence_number)),
+                ("wal", Val::U(self.curr_wal_number)),
+                (
+                    "prevwal",
+                    self.prev_wal_number.map_or(Val::Null, Val::U),
+                ),
+                (
+                    "levels",
+                    verif::version_levels(&self.current_version.read().element),
+                ),
+            ]
+        });
+    }
+
+    /// Verification hook: report the outcome of `log_and_apply`.
+    fn verif_edit_event(
+        &self,
+        change_manifest: &VersionChangeManifest,
+        new_manifest: bool,
+        ok: bool,
+    ) {
+        use crate::verif::{self, Val};
+        verif::event(self.options.db_path(), "Edit", |obs| {
+            let with_contents = obs.wants_table_contents();
+            let mut del: Vec<(usize, u64)> = change_manifest
+                .deleted_files
+                .iter()
+                .map(|file| (file.level, file.file_number))
+                .collect();
+            del.sort_unstable();
+            vec![
+                ("ok", Val::B(ok)),
+                ("newman", Val::B(new_manifest)),
+                ("man", Val::U(self.manifest_file_number)),
+                (
+                    "wal",
+                    change_manifest.wal_file_number.map_or(Val::Null, Val::U),
+                ),
+                (
+                    "prevwal",
+                    change_manifest
+                        .prev_wal_file_number
+                        .map_or(Val::Null, Val::U),
+                ),
+                (
+                    "next",
+                    change_manifest.curr_file_number.map_or(Val::Null, Val::U),
+                ),
+                (
+                    "last",
+                    change_manifest
+                        .prev_sequence_number
+                        .map_or(Val::Null, Val::U),
+                ),
+                (
+                    "del",
+                    Val::List(
+                        del.into_iter()
+                            .map(|(level, number)| {
+                                Val::Map(vec![
+                                    ("level", Val::U(level as u64)),
+                                    ("f", Val::U(number)),
+                                ])
+                            })
+                            .collect(),
+                    ),
+                ),
+                (
+                    "add",
+                    Val::List(
+                        change_manifest
+                            .new_files
+                            .iter()
+                            .map(|(level, file)| {
+                                verif::file_meta_with_entries(
+                                    &self.options,
+                                    with_contents,
+                                    *level,
+                                    file,
+                                )
+                            })
+                            .collect(),
+                    ),
+                ),
+                (
+                    "ptrs",
+                    Val::List(
+                        change_manifest
+                            .compaction_pointers
+                            .iter()
+                            .map(|(level, key)| {
+                                Val::Map(vec![
+                                    ("level", Val::U(*level as u64)),
+                                    ("key", verif::ikey(key)),
+                                ])
+                            })
+                            .collect(),
+                    ),
+                ),
+                (
+                    "levels",
+                    verif::version_levels(&self.current_version.read().element),
+                ),
+            ]
+        });
+    }
+}
+
 /// Private methods
 impl VersionSet {
     /// Add a new version to the version set.
@@ -994,6 +1136,23 @@ impl VersionSet {
         }
         self.release_version(current_version);
 
+        #[cfg(raindb_verif)]
+        crate::verif::event(self.options.db_path(), "ManifestSnapshot", |_| {
+            vec![
+                ("man", crate::verif::Val::U(self.manifest_file_number)),
+                (
+                    "add",
+                    crate::verif::Val::List(
+                        change_manifest
+                            .new_files
+                            .iter()
+                            .map(|(level, file)| crate::verif::file_meta(*level, file))
+                            .collect(),
+                    ),
+                ),
+            ]
+        });
+
         let serialized_manifest: Vec<u8> = Vec::from(&change_manifest);
         manifest_file.append(&serialized_manifest)?;
 
@@ -1030,7 +1189,11 @@ impl VersionSet {
                     prev_sequence_num
                 );
                 let serialized_manifest: Vec<u8> = Vec::from(change_manifest);
+                #[cfg(raindb_verif)]
+                crate::verif::sched_point(file_name_handler.verif_db_path(), "manifest_before_append");
                 manifest_file.lock().append(&serialized_manifest)?;
+                #[cfg(raindb_verif)]
+                crate::verif::sched_point(file_name_handler.verif_db_path(), "manifest_after_append");
 
                 if is_new_manifest_file {
                     log::info!(
